@@ -141,13 +141,13 @@ class C25(Prop):
                         continue
                     if not final:
                         stats["midrun_key_idle"] = True
-                    if key in lock._locks or key in lock._refs:
+                    if key in lock._locks or key in getattr(lock, "_refs", {}):
                         r.v(
                             "lock_state_left_behind",
                             where=where,
                             key=key,
                             locks=sorted(lock._locks),
-                            refs=dict(lock._refs),
+                            refs=dict(getattr(lock, "_refs", {})),
                         )
 
             def model_check(where):
@@ -224,8 +224,8 @@ class C25(Prop):
             # everything has settled: every task (holder, waiter, cancelled or not) is finished
             await settle()
             tables_check("end", final=True)
-            if lock._locks or lock._refs:
-                r.v("lock_state_left_behind", where="end", locks=sorted(lock._locks), refs=dict(lock._refs))
+            if lock._locks or getattr(lock, "_refs", {}):
+                r.v("lock_state_left_behind", where="end", locks=sorted(lock._locks), refs=dict(getattr(lock, "_refs", {})))
 
         boot.run_virtual(main)
         r.nontrivial = stats["cancel_queued_while_held"] or stats["handoff_cancel"] or stats["driver_cancel_in_handoff"]
